@@ -449,4 +449,58 @@ theorem last_error_rec (m b k h : ℝ) (u u1 f : ℝ → ℝ) (hA : coefA m b k 
   simp only [errForceLast, errSeq, trunc, t2, t0]
   ring
 
+/-! ### bounds on the central differences of the scalar sequence (used mode by mode for coupled systems) -/
+
+open Set in
+/-- `|(d_{i+2} − d_i)/(2h) − u'(t_{i+1})| ≤ R/√m + M₃ h²/6` -/
+theorem scalar_velocity_bound (m b k T M3 M4 : ℝ) (hm : 0 < m) (hb : 0 ≤ b) (hk : 0 ≤ k)
+    (u u1 u2 u3 u4 f : ℝ → ℝ)
+    (hu : ∀ t, HasDerivAt u (u1 t) t) (hu1 : ∀ t, HasDerivAt u1 (u2 t) t)
+    (hu2 : ∀ t, HasDerivAt u2 (u3 t) t) (hu3 : ∀ t, HasDerivAt u3 (u4 t) t)
+    (hM3 : ∀ t ∈ Icc 0 T, |u3 t| ≤ M3) (hM4 : ∀ t ∈ Icc 0 T, |u4 t| ≤ M4)
+    (hode : ∀ t ∈ Icc 0 T, m * u2 t + b * u1 t + k * u t = f t)
+    (h : ℝ) (n : ℕ) (hh : 0 < h) (hnT : ((n : ℝ) + 1) * h ≤ T) (i : ℕ) (hi : i < n) :
+    |(dseq (scalarSys m b k h) (fun j : ℕ => f (j * h)) (u 0) (u1 0) 0 (i + 2)
+        - dseq (scalarSys m b k h) (fun j : ℕ => f (j * h)) (u 0) (u1 0) 0 i) / (2 * h)
+        - u1 (((i + 1 : ℕ) : ℝ) * h)|
+      ≤ convR m b k T M3 M4 |f 0 - (k * u 0 + b * u1 0)| h / √m + M3 * h ^ 2 / 6 := by
+  obtain ⟨hR0, hEn, -, -, -⟩ := scalar_error_energy m b k T M3 M4 hm hb hk u u1 u2 u3 u4 f hu hu1 hu2 hu3
+    hM3 hM4 hode h n hh hnT
+  set R := convR m b k T M3 M4 |f 0 - (k * u 0 + b * u1 0)| h with hR
+  set μ := √m with hμd
+  have hμ : 0 < μ := Real.sqrt_pos.mpr hm
+  have hmμ : m = μ ^ 2 := (Real.sq_sqrt hm.le).symm
+  set t := ((i + 1 : ℕ) : ℝ) * h with ht
+  have tp : t + h = ((i + 2 : ℕ) : ℝ) * h := by rw [ht]; push_cast; ring
+  have tm : t - h = ((i : ℕ) : ℝ) * h := by rw [ht]; push_cast; ring
+  have hi0 : (0 : ℝ) ≤ i := Nat.cast_nonneg i
+  have hiT : ((i : ℝ) + 2) * h ≤ T := by
+    have : (i : ℝ) + 2 ≤ n + 1 := by exact_mod_cast (by omega : i + 2 ≤ n + 1)
+    nlinarith
+  have sub : ∀ s ∈ Icc (t - h) (t + h), s ∈ Icc 0 T := by
+    intro s hs
+    rw [tm] at hs; rw [tp] at hs
+    refine ⟨le_trans (by positivity) hs.1, le_trans hs.2 ?_⟩
+    push_cast; linarith
+  have htr := centered_diff_le u u1 u2 u3 hu hu1 hu2 t h M3 hh.le (fun s hs => hM3 s (sub s hs))
+  have hce := centered_err_le m k h μ R R (errSeq m b k h u u1 f (i + 2)) (errSeq m b k h u u1 f (i + 1))
+    (errSeq m b k h u u1 f i) hμ hmμ hk hh hR0 hR0 (hEn (i + 1) (by omega)) (hEn i (by omega))
+  have h2 : (0 : ℝ) < 2 * h := by positivity
+  have key : ∀ D2 D0 U2 U0 w : ℝ, (D2 - D0) / (2 * h) - w
+      = ((D2 - U2) - (D0 - U0)) / (2 * h) + (U2 - U0 - 2 * h * w) / (2 * h) := by
+    intros; field_simp; ring
+  have e2 : errSeq m b k h u u1 f (i + 2)
+      = dseq (scalarSys m b k h) (fun j : ℕ => f (j * h)) (u 0) (u1 0) 0 (i + 2) - u (t + h) := by
+    rw [tp]; rfl
+  have e0 : errSeq m b k h u u1 f i
+      = dseq (scalarSys m b k h) (fun j : ℕ => f (j * h)) (u 0) (u1 0) 0 i - u (t - h) := by
+    rw [tm]; rfl
+  rw [key _ _ (u (t + h)) (u (t - h)) _, ← e2, ← e0]
+  refine le_trans (abs_add_le _ _) (add_le_add ?_ ?_)
+  · calc _ ≤ (R + R) / (2 * μ) := hce
+      _ = R / μ := by field_simp; ring
+  · rw [abs_div, abs_of_pos h2, div_le_iff₀ h2]
+    calc _ ≤ M3 / 3 * h ^ 3 := htr
+      _ = M3 * h ^ 2 / 6 * (2 * h) := by ring
+
 end PyYetiVerif.Newmark
